@@ -18,6 +18,15 @@ NO_INLINE = {
 }
 NO_INLINE_PREFIX = ('rc::MutRc::own', 'rc::MutArc::own')
 
+# callees that only store / wrap a closure argument without calling it: the closure becomes a stored
+# task, analysed as a root of its own
+STORES_CLOSURE = {
+    'std::boxed::Box::new', 'std::boxed::Box::pin', 'std::rc::Rc::new', 'std::sync::Arc::new',
+    'std::convert::From::from', 'std::convert::Into::into', 'std::mem::drop', 'std::mem::forget',
+    'std::vec::Vec::push', 'std::collections::VecDeque::push_back', 'std::collections::VecDeque::push_front',
+    'std::option::Option::replace', 'std::option::Option::insert', 'std::mem::replace',
+}
+
 FN_TRAITS = ('std::ops::FnOnce::call_once', 'std::ops::FnMut::call_mut', 'std::ops::Fn::call')
 
 # closure parameter models for std combinators: name -> how the closure's
@@ -328,7 +337,7 @@ def _call(g, fx, key, ctx, bi, t, cur, starts, unws, tr, depth, max_depth, do_in
         if aty is None:
             continue
         cd = _closure_def_of_type(facts, aty)
-        if not cd or cd not in facts.fns or not do_inline:
+        if not cd or cd not in facts.fns or not do_inline or name in STORES_CLOSURE:
             continue
         if depth >= max_depth or any(c[2] == cd for c in ctx):
             g.incomplete.append((key, bi, name, 'closure depth'))
